@@ -309,6 +309,30 @@ theorem C18_reduce_is_statistic (sqrtF : Rat → Rat) (k qlo qhi : Rat) (row : L
     reduceRow sqrtF false k qlo qhi row = ⟨median row, quantile qlo row, quantile qhi row⟩ := by
   constructor <;> rfl
 
+/-- When every series has the sim's number of time points, `reduce` as the code is returns the statistics
+    (`reduceKey` = `reduce`); the `spec` variant always does. -/
+theorem C18_reduceKey_partial (v : Variant) (npts : Nat) (sqrtF : Rat → Rat) (useMean : Bool) (k qlo qhi : Rat)
+    (members : List (List Rat)) (h : v = .spec ∨ ∀ m ∈ members, m.length = npts) :
+    reduceKey v npts sqrtF useMean k qlo qhi members = .ok (reduce sqrtF useMean k qlo qhi members) := by
+  cases v with
+  | spec => simp [reduceKey]
+  | asis =>
+      cases members with
+      | nil => simp [reduceKey]
+      | cons m ms =>
+          have : m.length = npts := by
+            rcases h with h | h
+            · cases h
+            · exact h m (List.mem_cons_self ..)
+          simp [reduceKey, this]
+
+/-- **Known finding (mixed time steps).** A result series of another length than the sim's time vector (a
+    module with its own time step) makes `reduce` raise as the code is. -/
+theorem C18_reduce_mixed_timestep_counterexample :
+    errOf (reduceKey .asis 11 id false 2 (1/10) (9/10) [[3], [4]]) = some .valueErr ∧
+    errOf (reduceKey .spec 11 id false 2 (1/10) (9/10) [[3], [4]]) = none := by
+  constructor <;> rfl
+
 /-- default `bounds` and `quantiles` of `reduce` -/
 theorem C18_reduce_defaults : Gen.defaultBounds = 2 ∧ Gen.defaultQLow = 1/10 ∧ Gen.defaultQHigh = 9/10 := by
   refine ⟨rfl, rfl, rfl⟩
